@@ -38,7 +38,7 @@ RULE = ("worlds of 3 real IdentityCommunity nodes + 2 node-less third-party keys
         "(cross-subject registration, expiry boundary, third-party attestation stored first, replay, long chain, "
         "sha1, fixed-metadata, wrong-name, tainted disclosure, restart over the same database with a new or the old "
         "IdentityManager (third party's row first / own row stored / own row plus a row of another subject for the same "
-        "metadata), stale-plus-fresh registration, orphan flood beyond the 100-token cap, registration without a JSON form, chain with one forged link delivered out of order, metadata over a bad token then restart, refused advertise call then chain growth, two keys behind one network address, none) followed by 25-45 seeded events drawn from: add_known_hash (any subject incl. "
+        "metadata), stale-plus-fresh registration, orphan flood beyond the 100-token cap, registration without a JSON form, chain with one forged link delivered out of order, metadata over a bad token then restart, refused advertise call then chain growth, two keys behind one network address, forged copy of an already chained token in a later disclosure, none) followed by 25-45 seeded events drawn from: add_known_hash (any subject incl. "
         "third parties, 5 hashes + one 20-byte hash, 3 names, 5 metadata dicts), request_attestation_advertisement, "
         "self_advertise (single / bulk), deliver / replay / drop of captured packets, restarts, clock steps in multiples of "
         "1/8 s incl. exactly +299.875, +300, +300.125 and +301 s after a registration, registered and disclosed metadata "
@@ -886,7 +886,7 @@ class Gen:
         elif toks:
             target = rng.choice(toks)
         tv = rng.choice(["ok"] * 6 + ["foreign-signed", "garbage", "orphan", "truncate", "shuffle", "dup", "forged-link",
-                                      "forged-link", "other-subjects-token"])
+                                      "forged-link", "other-subjects-token", "forged-copy", "forged-copy"])
         w.ctx.count("craft:token-variant:" + tv)
         if tv == "forged-link" and toks:
             # one token of the chain keeps its place (predecessor pointer and content hash) but not its signature; its
@@ -894,6 +894,12 @@ class Gen:
             toks, target = self.forge_link(p, toks, target)
             if rng.random() < 0.6:
                 toks = list(reversed(toks))          # children before parents: they wait for their predecessor
+        if tv == "forged-copy" and toks:
+            # a copy of a token the verifier may already have chained: same pointers, a signature that does not verify;
+            # everything else in the disclosure (successors included: they point at the ORIGINAL's hash) stays genuine
+            at = rng.randrange(len(toks))
+            toks[at] = self.forged_copy(p, toks[at])
+            w.ctx.count("craft:forged-copy:in-random-disclosure")
         bad = None
         if tv == "foreign-signed":
             q = rng.choice([k for k in w.sk if k != p])
@@ -986,6 +992,17 @@ class Gen:
             for e in pk:
                 w.queue.remove(e)
                 w.ev_deliver(e)
+
+    def forged_copy(self, p, blob):
+        """the same pointer pair (previous hash, content hash) under a signature that does not verify under p's key"""
+        w, rng = self.w, self.rng
+        kind = rng.choice(["garbage-signature", "signed-by-other-key", "bit-flip"])
+        w.ctx.count("craft:forged-copy:" + kind)
+        if kind == "garbage-signature":
+            return blob[:64] + rng.randbytes(SIGLEN)
+        if kind == "signed-by-other-key":
+            return mk_token(w, rng.choice([k for k in w.sk if k != p]), blob[:32], blob[32:64])
+        return blob[:-1] + bytes([blob[-1] ^ 1])
 
     def forge_link(self, p, toks, target, at=None):
         """Re-make the chain `toks` with token `at` carrying a signature that does not verify under p's key."""
@@ -1189,6 +1206,37 @@ class Gen:
             for e in w.craft(a, v, pl, "stale and fresh credential"):
                 w.queue.remove(e)
                 w.ev_deliver(e)
+        elif kind == "forged-copy-of-chained-token":
+            # first contact is honest and chains the subject's tokens at the verifier; a later disclosure carries a NEW
+            # signable credential whose root path repeats an already chained token with a signature that does not verify
+            w.ev_reg(v, h1, name, a, None)
+            w.ev_reg(v, h2, name, a, None)
+            for i in range(self.pick([0, 1, 2])):
+                w.ev_selfadv(a, sha3(b"pre%d" % i), "pre")
+            w.ev_advert(a, v, h1, name, None)
+            self.flush()
+            w.ev_selfadv(a, h2, name)
+            meta = w.ov[a].metadata_chain[-1]
+            real = [t.get_plaintext_signed() for t in w.ov[a].token_chain]
+            at = self.pick([0, len(real) - 2, 0], salt=1) if len(real) > 1 else 0
+            toks_ = list(real)
+            toks_[at] = self.forged_copy(a, real[at])
+            how = self.pick(["replaced", "added-before", "added-after"], salt=self.vidx // 3)
+            if how == "added-before":
+                toks_ = [toks_[at]] + real
+            elif how == "added-after":
+                toks_ = real + [toks_[at]]
+            w.ctx.count("forged-copy-of-chained-token:" + how)
+            w.trace.append({"op": "opener", "kind": kind, "how": how, "at": at})
+            pl = w.P.DisclosePayload(frame_md([meta.get_plaintext_signed()]), b"".join(toks_), b"", b"")
+            for e in w.craft(a, v, pl, "new credential, root path with a forged copy of a chained token"):
+                w.queue.remove(e)
+                w.ev_deliver(e)
+            if self.pick([True, False]):
+                pl = w.P.DisclosePayload(frame_md([meta.get_plaintext_signed()]), b"".join(real), b"", b"")
+                for e in w.craft(a, v, pl, "the same, genuine"):
+                    w.queue.remove(e)
+                    w.ev_deliver(e)
         elif kind == "shared-address":
             # a opens its chain to b only; another key (v) asks from b's network address, and b asks from v's address:
             # the permission belongs to the KEY that signed the request, not to the address it came from
@@ -1513,7 +1561,7 @@ OPENERS = ["cross-subject", "expiry", "third-party-first", "replay", "long-chain
            "wrong-name", "tainted", "restart", "stale-plus-fresh", "orphan-flood",
            "unserialisable-registration", "forged-out-of-order",
            "bad-token-then-restart", "refused-advert-then-growth",
-           "shared-address", "none"]
+           "shared-address", "forged-copy-of-chained-token", "none"]
 
 
 async def run_world(ctx: Ctx, loop, use_model: bool, opener: str, n_events: int, world_seed: int, vidx: int = 0):
@@ -1687,7 +1735,9 @@ REQUIRED_CLASSES = (
     + ["craft:taint:" + k for k in ("garbage-token", "foreign-token", "bad-attestation", "wrong-authority", "orphan-token",
                                     "foreign-metadata", "attestation-missing", "attestation-cut-short",
                                     "second-attestation-missing")]
-    + ["fixed-metadata:registered-with-standard-key", "reg:md-carries-standard-key"]
+    + ["fixed-metadata:registered-with-standard-key", "reg:md-carries-standard-key",
+       "forged-copy-of-chained-token:replaced", "forged-copy-of-chained-token:added-before",
+       "forged-copy-of-chained-token:added-after", "craft:forged-copy:in-random-disclosure"]
     + ["forged-out-of-order:forged", "forged-out-of-order:honest-control", "craft:forged-link:position=last",
        "craft:forged-link:position=inner", "bad-token-then-restart:orphan", "bad-token-then-restart:other-subjects-token",
        "orphan-flood:over-cap", "orphan-flood:within-cap", "advert:raised:RuntimeError", "advert:raised:TypeError",
@@ -1716,7 +1766,7 @@ def run(ctx: Ctx):
     if ctx.replay_input is not None:
         return replay(ctx, ctx.replay_input)
     run_matrix(ctx, ctx.model_ok)
-    run_worlds(ctx, ctx.scale(216, 3006), ctx.model_ok)
+    run_worlds(ctx, ctx.scale(228, 3002), ctx.model_ok)
     if ctx.model_ok:
         require_classes(ctx)
 
